@@ -22,6 +22,16 @@ package synct
 //	ae=<hex of the grpc-accept-encoding value the client transport sends: the compressors registered
 //	    in THIS binary (grpcutil.RegisteredCompressors(), read when the transport is created); `-` = none>
 //
+// Long-lived metadata objects and several header/trailer calls per RPC (the handler's own MD values
+// must never be retained or modified by the server, and calls accumulate like metadata.Join):
+//
+//	pool <i> <md>                         (re)creates the long-lived metadata.MD object number i -> ok
+//	rpcm <path> <hcalls> <tcalls> <code>  one RPC without client metadata whose handler makes the listed
+//	    calls in order: first the header calls, then the trailer calls, then (b1 / unary OK) the reply.
+//	    calls: `-` | api@ref|api@ref…   api as hapi/tapi above; ref = p<i> (THE pool object i, the same
+//	    Go map in every RPC that names it) or l<md> (a fresh literal)
+//	    -> st= in= hdr= trl= h=<r1,r2…|-> t=<r1,…|-> ae= pool=<md of object 0>/<md of object 1>/… (after the RPC)
+//
 // In printed metadata the user-agent value "grpc-go/<grpc.Version>" is shown as `5541` ("UA").
 
 import (
@@ -36,10 +46,13 @@ import (
 	"google.golang.org/grpc/status"
 )
 
-type mdwireComp struct{ e *e2e }
+type mdwireComp struct {
+	e    *e2e
+	pool map[int]metadata.MD
+}
 
 func init() {
-	register("s_mdwire", func() SHandler { return &mdwireComp{e: newE2E(nil, nil)} })
+	register("s_mdwire", func() SHandler { return &mdwireComp{e: newE2E(nil, nil), pool: map[int]metadata.MD{}} })
 }
 
 func canonUA(md metadata.MD) metadata.MD {
@@ -84,7 +97,167 @@ func parsePairs(s string) []string {
 	return kv
 }
 
+type mdCall struct {
+	api string
+	md  metadata.MD
+}
+
+// parseCalls resolves api@ref|api@ref…; p<i> refers to THE pool object, l<md> parses a fresh MD.
+func (c *mdwireComp) parseCalls(s string) ([]mdCall, bool) {
+	if s == "-" {
+		return nil, true
+	}
+	var out []mdCall
+	for _, p := range strings.Split(s, "|") {
+		x := strings.SplitN(p, "@", 2)
+		if len(x) != 2 || len(x[1]) == 0 {
+			return nil, false
+		}
+		var md metadata.MD
+		switch x[1][0] {
+		case 'p':
+			i, err := strconv.Atoi(x[1][1:])
+			if err != nil {
+				return nil, false
+			}
+			m, ok := c.pool[i]
+			if !ok {
+				return nil, false
+			}
+			md = m
+		case 'l':
+			md = parseMD(x[1][1:])
+		default:
+			return nil, false
+		}
+		out = append(out, mdCall{x[0], md})
+	}
+	return out, true
+}
+
+func (c *mdwireComp) showPool() string {
+	n := 0
+	for i := range c.pool {
+		if i+1 > n {
+			n = i + 1
+		}
+	}
+	if n == 0 {
+		return "-"
+	}
+	parts := make([]string, n)
+	for i := 0; i < n; i++ {
+		if m, ok := c.pool[i]; ok {
+			parts[i] = showMD(m, nil)
+		} else {
+			parts[i] = "?"
+		}
+	}
+	return strings.Join(parts, "/")
+}
+
+func (c *mdwireComp) opRpcm(f []string) string {
+	path := f[1]
+	hcalls, ok1 := c.parseCalls(f[2])
+	tcalls, ok2 := c.parseCalls(f[3])
+	code64, err := strconv.ParseUint(f[4], 10, 32)
+	if !ok1 || !ok2 || err != nil {
+		return "bad-op"
+	}
+	seen := "!"
+	var hres, tres []string
+	c.e.behave = func(h *hctx) error {
+		in, ok := metadata.FromIncomingContext(h.ctx)
+		if !ok {
+			seen = "none"
+		} else {
+			seen = showMD(canonUA(in), nil)
+		}
+		if h.ss != nil {
+			for {
+				var m rawMsg
+				if err := h.ss.RecvMsg(&m); err != nil {
+					break
+				}
+			}
+		}
+		for _, cl := range hcalls {
+			r := "nostream"
+			switch cl.api {
+			case "ss.set":
+				if h.ss != nil {
+					r = errCode(h.ss.SetHeader(cl.md))
+				}
+			case "ss.send":
+				if h.ss != nil {
+					r = errCode(h.ss.SendHeader(cl.md))
+				}
+			case "ctx.set":
+				r = errCode(grpc.SetHeader(h.ctx, cl.md))
+			case "ctx.send":
+				r = errCode(grpc.SendHeader(h.ctx, cl.md))
+			default:
+				r = "badapi"
+			}
+			hres = append(hres, r)
+		}
+		for _, cl := range tcalls {
+			r := "nostream"
+			switch cl.api {
+			case "ss.set":
+				if h.ss != nil {
+					h.ss.SetTrailer(cl.md)
+					r = "ok"
+				}
+			case "ctx.set":
+				r = errCode(grpc.SetTrailer(h.ctx, cl.md))
+			default:
+				r = "badapi"
+			}
+			tres = append(tres, r)
+		}
+		if h.ss != nil && path == "b1" {
+			if err := h.ss.SendMsg(&rawMsg{b: []byte("r")}); err != nil {
+				return status.Error(codes.DataLoss, "harness: SendMsg: "+err.Error())
+			}
+		}
+		if code64 == 0 {
+			return nil
+		}
+		return status.Error(codes.Code(uint32(code64)), "s")
+	}
+	var r clientResult
+	switch path {
+	case "u":
+		r = c.e.unary(context.Background(), "U")
+	case "b0", "b1":
+		r = c.e.stream(context.Background())
+	default:
+		return "bad-op"
+	}
+	settle()
+	j := func(l []string) string {
+		if len(l) == 0 {
+			return "-"
+		}
+		return strings.Join(l, ",")
+	}
+	return "st=" + errCode(r.err) + " in=" + seen + " hdr=" + showMD(canonUA(r.header), nil) + " trl=" + showMD(canonUA(r.trailer), nil) +
+		" h=" + j(hres) + " t=" + j(tres) + " ae=" + hx(grpcutil.RegisteredCompressors()) + " pool=" + c.showPool()
+}
+
 func (c *mdwireComp) Op(f []string) string {
+	if f[0] == "pool" && len(f) == 3 {
+		i, err := strconv.Atoi(f[1])
+		if err != nil || i < 0 || i > 7 {
+			return "bad-op"
+		}
+		c.pool[i] = parseMD(f[2])
+		return "ok"
+	}
+	if f[0] == "rpcm" && len(f) == 5 {
+		return c.opRpcm(f)
+	}
 	if (f[0] != "rpc" && f[0] != "probe" && f[0] != "probeae") || len(f) != 9 {
 		return "bad-op"
 	}
